@@ -271,6 +271,68 @@ def h_format_roundtrip(eng):
         eng.prove(m.value.magnitude == v and m.error.magnitude == e, f"measurement-unaltered:{v}")
 
 
+def h_correlations(eng):
+    """with the real uncertainties package (float registry): a measurement stays the same random
+    variable through arithmetic and conversions, so expressions in which it appears more than
+    once propagate to first order with their correlations -- (m + m) - m has the error of m"""
+    import math
+
+    import warnings
+
+    from uncertainties import ufloat
+
+    warnings.filterwarnings("ignore", message="Using UFloat objects with std_dev==0")
+    ureg = regs.float_default()
+    forms = {
+        "Measurement(v,e,u)": lambda v, e, u: ureg.Measurement(v, e, u),
+        "Measurement(ufloat,u)": lambda v, e, u: ureg.Measurement(ufloat(v, e), u),
+        "plus_minus": lambda v, e, u: ureg.Quantity(v, u).plus_minus(e),
+        "Measurement(Quantity,e)": lambda v, e, u: ureg.Measurement(ureg.Quantity(v, u), e),
+    }
+
+    def close(a, b):
+        return math.isclose(a, b, rel_tol=1e-9, abs_tol=1e-12)
+
+    def ve(r):
+        mag = r.magnitude
+        return (mag.nominal_value, mag.std_dev) if hasattr(mag, "nominal_value") else (mag, 0.0)
+
+    for fname, mk in forms.items():
+        for v, e, u, u2, k in ((10.0, 0.5, "second", "millisecond", 1000.0), (2.5, 0.125, "meter", "inch", 1 / 0.0254), (300.0, 2.0, "kelvin", "degree_Rankine", 1.8)):
+            m = mk(v, e, u)
+            P = lambda cond, label: eng.prove(bool(cond), f"{fname}:{u}:{label}")  # noqa: E731
+            n_, s_ = ve((m + m) - m)
+            P(close(n_, v) and close(s_, e), "(m+m)-m")
+            n_, s_ = ve(3 * m - 2 * m)
+            P(close(n_, v) and close(s_, e), "3m-2m")
+            n_, s_ = ve(m - m)
+            P(close(n_, 0.0) and close(s_, 0.0), "m-m")
+            n_, s_ = ve(m / m)
+            P(close(n_, 1.0) and close(s_, 0.0), "m/m")
+            n_, s_ = ve(m.to(u2) - m)
+            P(close(n_, 0.0) and close(s_, 0.0), "m.to(u2)-m")
+            n_, s_ = ve(m.to(u2).to(u) - m)
+            P(close(n_, 0.0) and close(s_, 0.0), "m.to(u2).to(u)-m")
+            n_, s_ = ve(m.to(u2) + m.to(u2))
+            P(close(n_, 2 * v * k) and close(s_, 2 * e * k), "to+to:fully-correlated")
+            t = mk(4.0, 0.25, "hour")
+            n_, s_ = ve((m / t) * t)
+            P(close(n_, v) and close(s_, e), "(m/t)*t")
+            n_, s_ = ve((m * t) / t)
+            P(close(n_, v) and close(s_, e), "(m*t)/t")
+            # independent measurements do combine in quadrature
+            m2 = mk(v, e, u)
+            n_, s_ = ve(m + m2)
+            P(close(n_, 2 * v) and close(s_, math.sqrt(2) * e), "independent-sum-in-quadrature")
+            n_, s_ = ve(m - m2)
+            P(close(n_, 0.0) and close(s_, math.sqrt(2) * e), "independent-difference-in-quadrature")
+    # offset units: a temperature and its converted self
+    T = ureg.Measurement(25.0, 0.5, "degC")
+    d = T.to("degF").to("degC") - T
+    n_, s_ = ve(d)
+    eng.prove(close(n_, 0.0) and close(s_, 0.0), "offset:T.to(degF).to(degC)-T")
+
+
 MIN_DISCHARGED = {"H19.a": 200, "H19.b": 100, "H19.c": 100}
 
 
@@ -286,6 +348,7 @@ def cases(tier, seed):
     for u, w in [("degree_Celsius", "degree_Fahrenheit"), ("degree_Fahrenheit", "kelvin"), ("kelvin", "degree_Celsius"), ("degree_Rankine", "degree_Reaumur")]:
         out.append(Case("H19.b", f"convert:{u}->{w}", M, "h_convert", {"u": u, "w": w}, validate=1))
     out.append(Case("H19.e", "format-roundtrip", M, "h_format_roundtrip", {}, kind="conc"))
+    out.append(Case("H19.c", "correlations", M, "h_correlations", {}, kind="conc"))
     for u in ("meter", "second", "newton"):
         out.append(Case("H19.a", f"negative-error:{u}", M, "h_negative_error", {"u": u}, validate=1))
         out.append(Case("H19.d", f"parse:{u}", M, "h_parse", {"u": u}, validate=1))
